@@ -1,21 +1,21 @@
 SPECIFICATION Spec
-CONSTANTS Contracts <- McContracts
+CONSTANTS Contracts <- McOne
  Sender = "U"
- Creators = {}
+ Creators = {"U", "A"}
  Slots <- McSlots
- InitBal <- McInitBal
- InitStor <- McInitStor
- Kinds <- McKinds
+ InitBal <- McInitBal1
+ InitStor <- McInitStor1
+ Kinds <- McKindsC
  Vals = {1}
  SendVals = {0, 1}
  SuicideTo = {"U"}
- G0 = 3
- MaxDepth = 3
+ G0 = 4
+ MaxDepth = 2
  MaxFan = 2
  DepthLimit = 1024
  DevS = FALSE
  DevG = FALSE
- DevC = FALSE
+ DevC = TRUE
 VIEW ViewNoHist
 INVARIANTS StaticIsNoop GasWithinSupplied DepthBound NoCrash JournalMarksOrdered CodeOnlyByCreation
 PROPERTIES FailedFrameIsNoop OkKeepsEffects GasNeverGrows CollisionIsNoop
